@@ -31,3 +31,15 @@ pub mod solidadapter;
 #[cfg(feature = "sqlitedbadapter")]
 pub mod sqliteadapter;
 mod utils;
+
+/// Verification hooks (only with `--cfg melda_verif`): read-only re-exports of
+/// otherwise private items used by the external conformance harness.
+#[cfg(melda_verif)]
+pub mod verif {
+    pub use crate::revision::Revision;
+    pub use crate::revisiontree::{RevisionTree, RevisionTreeEntry};
+    pub use crate::utils::{
+        apply_diff_patch, digest_bytes, digest_object, digest_string, flatten, make_diff_patch,
+        merge_arrays, unflatten,
+    };
+}
